@@ -604,9 +604,10 @@ def _to_c_expr(
                         )
                 # a chain that reads no variable may initialise a global (where a lambda
                 # must not have a capture-default); one that reads variables needs them
-                callees = {id(sub.func) for sub in ast.walk(n) if isinstance(sub, ast.Call)}
+                callees = [sub.func for sub in ast.walk(n) if isinstance(sub, ast.Call)]
                 reads_variable = any(
-                    isinstance(sub, ast.Name) and id(sub) not in callees for sub in ast.walk(n)
+                    isinstance(sub, ast.Name) and not any(sub is callee for callee in callees)
+                    for sub in ast.walk(n)
                 )
                 capture = "[&]" if reads_variable else "[]"
                 return "(" + capture + "() -> bool { " + " ".join(steps) + " }())"
